@@ -33,6 +33,7 @@ type op38 struct {
 type sys38 struct {
 	cfg      *sysConfig
 	pool     *vmPool
+	memo     *memo
 	genesis  *world
 	dsc      []byte // address of the delegation contract
 	actors   [][]byte
@@ -43,8 +44,9 @@ type sys38 struct {
 }
 
 type st38 struct {
-	y *sys38
-	v *sysVM
+	y    *sys38
+	hist []byte // operations recorded so far (see memo in world.go)
+	v    *sysVM // nil until the state is materialised
 	// ghost totals, measured from transaction inputs/outputs (not from contract storage)
 	undelegated *big.Int // sum of values of successful unDelegate transactions
 	withdrawn   *big.Int // sum paid to delegators by successful withdraw transactions
@@ -105,12 +107,71 @@ func newSys38(cfg *sysConfig, nActors int, maxEpoch uint32, rewards []int64) *sy
 	}
 	y.genesis = w
 	y.pool = &vmPool{cfg: cfg}
+	y.memo = newMemo(8192)
 	return y
 }
 
 func (y *sys38) init() *st38 {
-	w := y.genesis.clone()
-	return &st38{y: y, v: y.pool.get(w), undelegated: new(big.Int), withdrawn: new(big.Int), received: new(big.Int), paid: new(big.Int)}
+	return &st38{y: y, undelegated: new(big.Int), withdrawn: new(big.Int), received: new(big.Int), paid: new(big.Int)}
+}
+
+type snap38 struct {
+	w                                      *world
+	undelegated, withdrawn, received, paid *big.Int
+	last, nt                               string
+}
+
+func (s *st38) snapshot() *snap38 {
+	return &snap38{w: s.v.w.clone(), undelegated: new(big.Int).Set(s.undelegated), withdrawn: new(big.Int).Set(s.withdrawn),
+		received: new(big.Int).Set(s.received), paid: new(big.Int).Set(s.paid), last: s.last, nt: s.nt}
+}
+
+// ensure materialises the state of the recorded history on the real contracts.
+func (s *st38) ensure() {
+	if s.v != nil {
+		return
+	}
+	y := s.y
+	n := len(s.hist)
+	start := 0
+	var w *world
+	for p := n; p > 0 && w == nil; p-- {
+		if sn, ok := y.memo.get(s.hist[:p]).(*snap38); ok {
+			w, start = sn.w.clone(), p
+			s.last, s.nt = sn.last, sn.nt
+			s.undelegated.Set(sn.undelegated)
+			s.withdrawn.Set(sn.withdrawn)
+			s.received.Set(sn.received)
+			s.paid.Set(sn.paid)
+		}
+	}
+	if w == nil {
+		w = y.genesis.clone()
+	}
+	s.v = y.pool.get(w)
+	for i := start; i < n; i++ {
+		s.apply(int(s.hist[i]))
+		if i+1 >= n-1 {
+			y.memo.put(s.hist[:i+1], s.snapshot())
+		}
+	}
+}
+
+func (s *st38) close() {
+	if s.v != nil {
+		s.y.pool.put(s.v)
+		s.v = nil
+	}
+}
+
+// do records the operation; it is executed when the state is observed (or at once when the
+// instance is already materialised).
+func (s *st38) do(o int) (string, string) {
+	s.hist = append(s.hist, byte(o))
+	if s.v != nil {
+		s.apply(o)
+	}
+	return "", ""
 }
 
 func (s *st38) delegator(a int) *ssc.DelegatorData {
@@ -149,13 +210,14 @@ func (s *st38) activeValue(a int) *big.Int {
 }
 
 func (s *st38) enabled(o int) bool {
+	s.ensure()
 	if s.y.ops[o].kind == "epoch" {
 		return s.v.w.epoch < s.y.maxEpoch
 	}
 	return true
 }
 
-func (s *st38) do(o int) (string, string) {
+func (s *st38) apply(o int) {
 	op := s.y.ops[o]
 	y := s.y
 	s.nt = ""
@@ -225,7 +287,7 @@ func (s *st38) do(o int) (string, string) {
 		s.v.setEpoch(s.v.w.epoch + 1)
 		s.last = "epoch"
 		if op.amt < 0 {
-			return "", ""
+			return
 		}
 		// the epoch-start block: the protocol hands the epoch's rewards to the contract
 		out = s.v.call(vm.EndOfEpochAddress, y.dsc, "updateRewards", bi(op.amt))
@@ -234,7 +296,6 @@ func (s *st38) do(o int) (string, string) {
 		}
 	}
 	s.last = op.kind + ":" + rc(out) + extra
-	return "", ""
 }
 
 // ---- oracle ------------------------------------------------------------------------------
@@ -278,6 +339,7 @@ func (s *st38) dump() string {
 }
 
 func (s *st38) check() (string, string) {
+	s.ensure()
 	w := s.v.w
 	fail := func(sig, what string) (string, string) { return "C38:" + sig, what + " | " + s.dump() }
 	raw := w.get(s.y.dsc, sscKeys.GlobalFund)
@@ -353,6 +415,7 @@ func (s *st38) check() (string, string) {
 }
 
 func (s *st38) key() string {
+	s.ensure()
 	var sb strings.Builder
 	s.v.w.canon(&sb)
 	// only the slack of the cumulative clauses can influence future verdicts
@@ -431,9 +494,9 @@ func runC38(c *mc.Ctx) {
 			Do:         func(s *st38, o int) (string, string) { return s.do(o) },
 			Check:      func(s *st38) (string, string) { return s.check() },
 			Key:        func(s *st38) string { return s.key() },
-			Nontrivial: func(s *st38) string { return s.nt },
-			Outcome:    func(s *st38) string { return s.last },
-			Close:      func(s *st38) { y.pool.put(s.v); s.v = nil },
+			Nontrivial: func(s *st38) string { s.ensure(); return s.nt },
+			Outcome:    func(s *st38) string { s.ensure(); return s.last },
+			Close:      func(s *st38) { s.close() },
 		}, depth)
 		c.Set("states["+y.cfg.name+"]", st.States)
 		c.Set("transitions["+y.cfg.name+"]", st.Transitions)
